@@ -101,7 +101,7 @@ Section Life.
     handle_op (length hs) HDrop (S2 s0 s1 (hs ++ [HMemWriter 0 q [] 0])) =
     (S2 (<[q := mkMemFile File [] (f_created g) (Some TAuto) (f_accessed g)]> s0) s1 (hs ++ [HClosed]), Ok tt).
   Proof.
-    intros Hq Hg. unfold handle_op, mstore2. cbn [st_handles].
+    intros Hq Hg. rewrite handle_op_no_io by reflexivity. unfold handle_op0, mstore2. cbn [st_handles].
     rewrite lookup_app_r by lia. rewrite Nat.sub_diag. cbn [lookup list_lookup].
     unfold mem_publish. cbn. rewrite Hq. destruct g as [ty c cr mo ac]. cbn in Hg. subst ty.
     unfold set_handle. cbn. rewrite insert_app_r_alt by lia. rewrite Nat.sub_diag. reflexivity.
